@@ -930,3 +930,47 @@ Proof.
   - intros a b c. apply Z.add_assoc.
   - intros a b. apply Z.add_comm.
 Qed.
+
+(* =========================================================================================== *)
+(* 7. Footprints as data: soundness of the boolean checkers run on the regenerated table         *)
+(* =========================================================================================== *)
+Definition fp_indep (x y : fp) : Prop :=
+  @disjoint loc (snd x) (snd y) /\ @disjoint loc (snd x) (fst y) /\ @disjoint loc (snd y) (fst x).
+
+Lemma disjoint_b_sound (a b : list loc) : disjoint_b a b = true -> @disjoint loc a b.
+Proof.
+  unfold disjoint_b. rewrite forallb_forall. intros H l Hl Hb. specialize (H l Hl).
+  apply negb_true_iff in H. apply (mem_false loc_eqb loc_eqb_spec) in H. auto.
+Qed.
+
+Lemma fp_indep_b_sound (x y : fp) : fp_indep_b x y = true -> fp_indep x y.
+Proof.
+  unfold fp_indep_b, fp_indep. rewrite !andb_true_iff. intros [[H1 H2] H3].
+  repeat split; apply disjoint_b_sound; auto.
+Qed.
+
+Lemma pairwise_b_sound {A} (f : A -> A -> bool) (R : A -> A -> Prop) (l : list A) :
+  (forall a b, f a b = true -> R a b) -> pairwise_b f l = true -> Pairwise R l.
+Proof.
+  intros Hs. induction l as [|a r IH]; cbn [pairwise_b]; intros H.
+  - constructor.
+  - apply andb_true_iff in H. destruct H as [H1 H2]. constructor; auto.
+    rewrite Forall_forall. rewrite forallb_forall in H1. intros x Hx. apply Hs. auto.
+Qed.
+
+(* items whose (reads, writes) are the given footprints are independent in the sense of the commutation theorem *)
+Lemma fp_indep_items (a b : sitem) : fp_indep (fp_of a) (fp_of b) -> indepi a b.
+Proof. unfold fp_indep, fp_of, indep. cbn [fst snd]. tauto. Qed.
+
+Lemma probe_independent_sound (p : probe) : probe_independent_b p = true ->
+  Pairwise fp_indep (p_comp p) /\ Pairwise fp_indep (p_bias p) /\ Pairwise fp_indep (p_collect p).
+Proof.
+  unfold probe_independent_b. rewrite !andb_true_iff. intros [[[H1 H2] H3] _].
+  repeat split; eapply pairwise_b_sound; eauto; apply fp_indep_b_sound.
+Qed.
+
+Lemma probes_independent_sound (ps : list probe) : forallb probe_independent_b ps = true ->
+  Forall (fun p => Pairwise fp_indep (p_comp p) /\ Pairwise fp_indep (p_bias p) /\ Pairwise fp_indep (p_collect p)) ps.
+Proof.
+  rewrite forallb_forall. intros H. rewrite Forall_forall. intros p Hp. apply probe_independent_sound. auto.
+Qed.
